@@ -398,8 +398,8 @@ def run(ctx):
     except OSError:
         pass
     n_corpus = len(cases) - n_probe
-    n_rand = ctx.scaled(300, 5000)
-    max_ops = ctx.scaled(12, 30)
+    n_rand = ctx.scaled(300, 3000)
+    max_ops = ctx.scaled(12, 24)
     texts = base_texts
     for i in range(n_rand):
         if i % 25 == 0:
@@ -409,6 +409,19 @@ def run(ctx):
     t_impl = _t.time()
     results = run_impl(ctx, cases)
     ctx.notes["timing_s"] = {"implementation_children": round(_t.time() - t_impl, 1)}
+    # a case whose child died or hung is re-run once alone in a fresh child: only a reproducible
+    # failure is judged (the first outcome and the watchdog traceback are kept in the evidence)
+    for i, r in enumerate(results):
+        if "obs" not in r:
+            again = core.run_child(ctx, "c01", [cases[i]])[0]
+            hang = ""
+            try:
+                hang = open(os.path.join(ctx.tmp, "c01_hang.txt")).read()[-1500:]
+            except OSError:
+                pass
+            ctx.notes.setdefault("child_failures", []).append(
+                {"history": cases[i]["ops"], "first": r, "rerun_ok": "obs" in again, "watchdog_traceback": hang})
+            results[i] = again
 
     # ---- F: behaviour tables measured on the running code -----------------------------------------
     handled = []
